@@ -509,6 +509,51 @@ pub struct SCase {
     /// drain both in one read loop)
     #[serde(default)]
     pub block_between: bool,
+    /// what the server sends right behind its CloseOk when the client closes the connection:
+    /// nothing, heartbeat frames, or bytes that are not a frame; `close_glue` of these bytes
+    /// arrive in CloseOk's read segment (the client must return Ok wherever the cut falls)
+    #[serde(default)]
+    pub close_trailer: u8,
+    #[serde(default)]
+    pub close_glue: u16,
+}
+
+/// Auto-replying broker that sends `trailer` behind the CloseOk with which it answers the
+/// client's Connection.Close.
+struct CloseTrailBroker {
+    inner: crate::broker::AutoBroker,
+    trailer: Vec<u8>,
+    glue: usize,
+    block: bool,
+}
+
+impl crate::broker::Responder for CloseTrailBroker {
+    fn on_frame(&mut self, io: &mut crate::broker::BrokerIo, frame: &AMQPFrame) {
+        use amq_protocol::protocol::connection::{AMQPMethod as Conn, CloseOk};
+        use amq_protocol::protocol::AMQPClass;
+        if let AMQPFrame::Method(0, AMQPClass::Connection(Conn::Close(_))) = frame {
+            if !self.trailer.is_empty() {
+                let ok = AMQPFrame::Method(0, AMQPClass::Connection(Conn::CloseOk(CloseOk {})));
+                let k = self.glue.min(self.trailer.len());
+                let mut first = encode(&ok);
+                first.extend_from_slice(&self.trailer[..k]);
+                let mut items = vec![crate::wire::InItem::Data(first)];
+                if k < self.trailer.len() {
+                    if self.block {
+                        items.push(crate::wire::InItem::Block);
+                    }
+                    items.push(crate::wire::InItem::Data(self.trailer[k..].to_vec()));
+                }
+                io.wire.push_items(items);
+                io.sent.push(ok);
+                return;
+            }
+        }
+        self.inner.on_frame(io, frame)
+    }
+    fn on_tick(&mut self, io: &mut crate::broker::BrokerIo) {
+        self.inner.on_tick(io)
+    }
 }
 
 pub fn exec_session(c: &SCase) -> Outcome {
@@ -545,7 +590,27 @@ pub fn exec_session(c: &SCase) -> Outcome {
         ..Default::default()
     };
     let ctx = format!("{} bytes of {:?} ({} bytes, frame boundaries {:?}) glued to OpenOk", glue, c.frames, trailer.len(), bounds);
-    let mut sess = open_session(&ClientCfg::default(), scfg, vec![], AutoBroker::new(c.salt));
+    let close_trailer: Vec<u8> = match c.close_trailer % 4 {
+        0 => Vec::new(),
+        1 => encode(&AMQPFrame::Heartbeat(0)),
+        2 => [encode(&AMQPFrame::Heartbeat(0)), encode(&AMQPFrame::Heartbeat(0))].concat(),
+        // 11 bytes that are not a frame: unknown type octet, a plausible size (3), wrong frame-end
+        // (a random size field would make the client reserve up to 4 GiB for the "frame")
+        _ => vec![9, 0, 0, 0, 0, 0, 3, (c.salt >> 8) as u8, (c.salt >> 16) as u8, (c.salt >> 24) as u8, 0x00],
+    };
+    let close_glue = pick(c.close_glue, close_trailer.len() + 1);
+    let ctx = format!("{}; behind the server's CloseOk: {} bytes (kind {}), {} of them in CloseOk's segment", ctx, close_trailer.len(), c.close_trailer % 4, close_glue);
+    let mut sess = open_session(
+        &ClientCfg::default(),
+        scfg,
+        vec![],
+        CloseTrailBroker {
+            inner: AutoBroker::new(c.salt),
+            trailer: close_trailer.clone(),
+            glue: close_glue,
+            block: c.block_between,
+        },
+    );
     let mut conn = match sess.conn.take() {
         Some(c) => c,
         None => {
@@ -563,6 +628,11 @@ pub fn exec_session(c: &SCase) -> Outcome {
             return Outcome::fail("session-depends-on-segmentation:open-failed", format!("{:?}\n{}", sess.open_error, ctx));
         }
     };
+    if c.frames.iter().any(|f| matches!(f, TFrame::ServerClose(..))) {
+        // the close travelled as raw bytes: from now on the broker behaves like a server that has
+        // sent Connection.Close (it answers nothing but CloseOk)
+        let _ = sess.broker.call(|_, io| io.closing = true);
+    }
     let wire = sess.wire.clone();
     let res = timed(CALL_TIMEOUT, "avh-c06-session", move || {
         let r = (|| -> amiquip::Result<()> {
@@ -631,6 +701,9 @@ pub fn exec_session(c: &SCase) -> Outcome {
         o.labels.push("server-close-right-behind-open-ok".into());
     }
     o.labels.push(if c.block_between { "would-block-between-segments".into() } else { "segments-back-to-back".to_string() });
+    if !close_trailer.is_empty() && server_close.is_none() {
+        o.labels.push(format!("bytes-behind-close-ok:{}", if close_glue == 0 { "next-read" } else if close_glue == close_trailer.len() { "same-read" } else { "cut-inside" }));
+    }
     o
 }
 
@@ -641,22 +714,24 @@ fn sstrat(_t: Tier) -> BoxedStrategy<SCase> {
         2 => Just(TFrame::Heartbeat),
     ];
     let tail = prop_oneof![3 => Just(None), 1 => (200u16..600, gen::short_string()).prop_map(|(c, t)| Some(TFrame::ServerClose(c, t)))];
-    (vec(f, 0..4), tail, any::<u16>(), prop_oneof![3 => Just(0u8), 1 => 1u8..9], any::<u64>(), any::<bool>())
-        .prop_map(|(mut frames, tail, glue, handshake_chunk, salt, block_between)| {
+    (vec(f, 0..4), tail, any::<u16>(), prop_oneof![3 => Just(0u8), 1 => 1u8..9], any::<u64>(), any::<bool>(), (0u8..4, any::<u16>()))
+        .prop_map(|(mut frames, tail, glue, handshake_chunk, salt, block_between, close)| {
             if let Some(t) = tail {
                 frames.push(t);
             }
             if frames.is_empty() {
                 frames.push(TFrame::Heartbeat);
             }
-            (frames, glue, handshake_chunk, salt, block_between)
+            (frames, glue, handshake_chunk, salt, block_between, close)
         })
-        .prop_map(|(frames, glue, handshake_chunk, salt, block_between)| SCase {
+        .prop_map(|(frames, glue, handshake_chunk, salt, block_between, close)| SCase {
             frames,
             glue,
             handshake_chunk,
             salt,
             block_between,
+            close_trailer: close.0,
+            close_glue: close.1,
         })
         .boxed()
 }
@@ -677,7 +752,7 @@ pub fn parts() -> Vec<Box<dyn PartDyn>> {
     }),
     Box::new(Part::<SCase> {
         name: "session",
-        rule: "whole sessions on the mock transport in which the server sends 1-3 frames of its own accord (Connection.Blocked with a generated reason, Unblocked, heartbeats, optionally ending with Connection.Close(code, text)) right behind OpenOk, a generated number of their bytes (0..=all) arriving in the same read segment as OpenOk and the rest in the next one (with or without a would-block in between), handshake replies whole or cut into 1-8 byte segments; oracle: wherever the cut falls the connection opens, open_channel / qos / Channel::close and Connection::close succeed and nothing panics or hangs - or, with a server close among the frames, exactly one CloseOk is written, as the last frame, and Connection::close reports the code and text; non-trivial = the read that carries OpenOk ends strictly inside the following frame; distinct by case hash",
+        rule: "whole sessions on the mock transport in which the server sends 1-3 frames of its own accord (Connection.Blocked with a generated reason, Unblocked, heartbeats, optionally ending with Connection.Close(code, text)) right behind OpenOk, a generated number of their bytes (0..=all) arriving in the same read segment as OpenOk and the rest in the next one (with or without a would-block in between), handshake replies whole or cut into 1-8 byte segments; oracle: wherever the cut falls the connection opens, open_channel / qos / Channel::close and Connection::close succeed and nothing panics or hangs - the same holds when the server sends heartbeats or non-frame bytes behind the CloseOk that answers Connection::close, cut anywhere - or, with a server close among the frames, exactly one CloseOk is written, as the last frame, and Connection::close reports the code and text; non-trivial = the read that carries OpenOk ends strictly inside the following frame; distinct by case hash",
         cases: |t| t.pick(1500, 30_000),
         threads: 16,
         strategy: sstrat,
